@@ -80,9 +80,9 @@ IncOf(e) == [d \in Names(e.pools) |-> PairOf(e.inc, d, 0)]
 \* a call that returned an error aborts the transaction that made it: the property speaks of payments made
 Judged == IsDist /\ ~ev.err /\ ~ev.panic
 PaidEv == ~ev.v_zero /\ ~ev.killed /\ ~ev.under
-\* vcheck marks the events that match the signature of a recorded known finding (known_findings.jsonl);
-\* the invariants a finding is about skip exactly those events
-Known == "known" \in DOMAIN ev /\ ev.known
+\* vcheck marks the events that match the signature of a recorded known finding (known_findings.jsonl,
+\* TraceLib!IsKnown); the invariants a finding is about skip exactly those events
+Known == IsKnown(ev)
 
 \* harness sanity (exit 2): nothing touches the rewards between two calls; the recorder's own
 \* classification agrees with the model's on every event TLC can recompute
